@@ -36,6 +36,10 @@ T["C09"] = ("metamorphic relation monitor over the real bs_*_price functions (ve
             "Put-call parity, binary parity, intrinsic/spot bounds, monotonicity and convexity in the spot, monotonicity in volatility and time, lookback and "
             "American-binary dominance, price 1 once the barrier is reached (incl. running max exactly on the strike) and continuity across M=K are checked "
             "on every element of generated batches with slack equal to the rounding bound.", "4 C09")
+T["C18"] = ("NaN-watch contracts on all bs_* price/delta functions + certain-payoff limit oracle + finiteness monitor on BS/WW hedgers",
+            "Every price/delta call (all aliases) is watched for NaN on finite non-negative inputs; a boundary grid (t, sigma in {0, tiny}, |s| from 0 to 50, running max on "
+            "both sides, call/put, strikes) is judged against the payoff that is then certain and the limiting deltas; negative inputs must raise ValueError in every function; "
+            "Black-Scholes / Whalley-Wilmott hedgers on simulated paths (incl. Heston paths reaching zero variance) must give finite hedge and P&L. Two known findings.", "4 C18")
 NA = {}
 
 def main():
